@@ -796,6 +796,11 @@ func (v *Protocol) WriteMessage(m *Message) (err error) {
 		return oe.Wrapf(err, "flush writer")
 	}
 
+	// The chunk size we announced to the peer applies to the chunks we send after it.
+	if m.MessageType == MessageTypeSetChunkSize && len(m.Payload) >= 4 {
+		v.output.opt.chunkSize = binary.BigEndian.Uint32(m.Payload)
+	}
+
 	return
 }
 
